@@ -77,6 +77,8 @@ type c04ConfigResult struct {
 	Name             string   `json:"name"`
 	Executions       int64    `json:"executions"`
 	SchemaReads      int64    `json:"schema_reads"`
+	SharedQueryExecs int64    `json:"shared_query_execs"`
+	SchemasScrambled int64    `json:"schemas_scrambled"`
 	Mismatches       []string `json:"mismatches"`
 	Panics           []string `json:"panics"`
 	OverlapPairs     int64    `json:"overlap_pairs"`
@@ -194,6 +196,8 @@ func workerC04Index(args []string) int {
 			more := c04RunConfig(&spec, cfg)
 			res.Executions += more.Executions
 			res.SchemaReads += more.SchemaReads
+			res.SharedQueryExecs += more.SharedQueryExecs
+			res.SchemasScrambled += more.SchemasScrambled
 			res.Mismatches = append(res.Mismatches, more.Mismatches...)
 			res.Panics = append(res.Panics, more.Panics...)
 			res.OverlapPairs += more.OverlapPairs
@@ -240,6 +244,13 @@ func c04RunConfig(spec *c04Spec, cfg c04Config) c04ConfigResult {
 	var mu sync.Mutex
 	var seq int64
 	shapes := map[string]bool{}
+	// Query objects shared by all goroutines (the same pointer executed by several goroutines at once): Execute only
+	// reads its query
+	shared := make([]*updog.Query, len(spec.Queries))
+	for i, q := range spec.Queries {
+		shared[i] = &updog.Query{Expr: q.E.ToUpdog(), GroupBy: append([]string{}, q.GB...)}
+	}
+	var sharedExecs, scrambled int64
 	for g := 0; g < cfg.Goroutines; g++ {
 		wg.Add(1)
 		ready.Add(1)
@@ -262,18 +273,47 @@ func c04RunConfig(spec *c04Spec, cfg c04Config) c04ConfigResult {
 						localPanics = append(localPanics, "GetSchema: "+msg)
 					} else if d := oracle.CompareSchema(sch, spec.Schema); d != "" && len(localMis) < 3 {
 						localMis = append(localMis, "GetSchema: "+d)
+					} else if sch != nil {
+						// the caller owns what it was given: reorder and overwrite it; nobody else may notice
+						for ci := range sch.Columns {
+							vs := sch.Columns[ci].Values
+							for a, b := 0, len(vs)-1; a < b; a, b = a+1, b-1 {
+								vs[a], vs[b] = vs[b], vs[a]
+							}
+							if len(vs) > 0 {
+								vs[0].Value = "overwritten by the caller"
+							}
+							sch.Columns[ci].Name = "renamed by the caller"
+						}
+						for a, b := 0, len(sch.Columns)-1; a < b; a, b = a+1, b-1 {
+							sch.Columns[a], sch.Columns[b] = sch.Columns[b], sch.Columns[a]
+						}
+						atomic.AddInt64(&scrambled, 1)
 					}
 					continue
 				}
-				q := spec.Queries[rng.Intn(len(spec.Queries))]
+				qi := rng.Intn(len(spec.Queries))
+				q := spec.Queries[qi]
 				if cfg.Repeat > 1 && i == 0 {
 					// first call on the fresh index: a group-by query (all goroutines pick among the same few)
 					for try := 0; try < 50 && len(q.GB) == 0; try++ {
-						q = spec.Queries[rng.Intn(len(spec.Queries))]
+						qi = rng.Intn(len(spec.Queries))
+						q = spec.Queries[qi]
 					}
 				}
-				// every goroutine builds its own Query value
-				uq := &updog.Query{Expr: q.E.ToUpdog(), GroupBy: append([]string{}, q.GB...)}
+				// a Query value of its own, or the object all goroutines share, or a shallow copy of that object
+				var uq *updog.Query
+				switch rng.Intn(6) {
+				case 0, 1:
+					uq = shared[qi]
+					atomic.AddInt64(&sharedExecs, 1)
+				case 2:
+					cq := *shared[qi]
+					uq = &cq
+					atomic.AddInt64(&sharedExecs, 1)
+				default:
+					uq = &updog.Query{Expr: q.E.ToUpdog(), GroupBy: append([]string{}, q.GB...)}
+				}
 				var r *updog.Result
 				var err error
 				t0 := time.Since(start).Nanoseconds()
@@ -316,6 +356,7 @@ func c04RunConfig(spec *c04Spec, cfg c04Config) c04ConfigResult {
 		}
 	}
 	res.GoroutinesActive = active
+	res.SharedQueryExecs, res.SchemasScrambled = sharedExecs, scrambled
 	res.OverlapPairs, res.MaxInFlight = overlapStats(all)
 	res.Hits, res.Misses, res.Puts = hit.N, miss.N, put.N
 	res.DistinctShapes = len(shapes)
@@ -695,17 +736,22 @@ func c04Index(r *vf.Run) {
 			continue
 		}
 		nraces := checkRaceLog(r, rid, logp)
+		var results []c04ConfigResult
+		perr := json.Unmarshal([]byte(res.Stdout), &results)
 		if res.Code != 0 {
 			if strings.Contains(res.Stderr, "panic:") || strings.Contains(res.Stderr, "fatal error:") || strings.Contains(res.Stderr, "checkptr") {
 				r.Violation(rid, "crash", map[string]any{"exit_code": res.Code, "stderr": tail(res.Stderr, 12000)})
-			} else if nraces == 0 {
+				continue
+			} else if nraces == 0 && perr != nil {
 				r.Inconclusive(fmt.Sprintf("%s: child exit %d: %s", rid, res.Code, tail(res.Stderr, 400)))
+				continue
 			}
-			continue
+			// a child that only ended with the race detector's exit status has still written its results: they are judged
 		}
-		var results []c04ConfigResult
-		if err := json.Unmarshal([]byte(res.Stdout), &results); err != nil {
-			r.Inconclusive(rid + ": child output unreadable: " + err.Error())
+		if perr != nil {
+			if nraces == 0 {
+				r.Inconclusive(rid + ": child output unreadable: " + perr.Error())
+			}
 			continue
 		}
 		for _, cr := range results {
@@ -713,6 +759,8 @@ func c04Index(r *vf.Run) {
 			r.Eval(int(cr.Executions + cr.SchemaReads))
 			r.Count("index_executions", cr.Executions)
 			r.Count("index_schema_reads", cr.SchemaReads)
+			r.Count("executions_of_query_objects_shared_between_goroutines", cr.SharedQueryExecs)
+			r.Count("schemas_overwritten_by_their_caller", cr.SchemasScrambled)
 			r.Count("index_overlapping_pairs", cr.OverlapPairs)
 			r.Max("index_in_flight", int64(cr.MaxInFlight))
 			r.Count("index_cache_hits", cr.Hits)
